@@ -154,6 +154,12 @@ func MergeWithContext[T any](ctx context.Context, cs ...<-chan T) <-chan T {
 	return out
 }
 
+// Merges the error channels of the stages of a pipeline. The outcome is sent as
+// soon as it is known: the first error of any stage (or the cause of the context
+// being cancelled), or nil once every stage has finished. The returned channel
+// is closed only after every stage has closed its error channel, so a caller
+// that must not outlive its stages, e.g. because it is about to roll back the
+// transaction they write to, cancels the context and drains the channel.
 func MergeErrorsWithContext(ctx context.Context, cs ...<-chan error) <-chan error {
 	errC := make(chan error, 1)
 	var wg sync.WaitGroup
@@ -161,20 +167,28 @@ func MergeErrorsWithContext(ctx context.Context, cs ...<-chan error) <-chan erro
 	wg.Add(len(cs))
 	for _, c := range cs {
 		go func(c <-chan error) {
-			select {
-			case <-ctx.Done():
-				cancel(ctx.Err())
-			case err := <-c:
+			defer wg.Done()
+			// A stage is done when it closes its error channel
+			for err := range c {
 				if err != nil {
 					cancel(err)
 				}
 			}
-			wg.Done()
 		}(c)
 	}
+	allDone := make(chan struct{})
 	go func() {
 		wg.Wait()
+		close(allDone)
+	}()
+	go func() {
+		select {
+		case <-ctx.Done():
+		case <-allDone:
+		}
 		errC <- context.Cause(ctx)
+		<-allDone
+		cancel(nil)
 		close(errC)
 	}()
 	return errC
